@@ -53,10 +53,10 @@ def sym_str(name):
 
 def gen_arg(g, simple=False):
     """-> {'syn': syntax, 'val': [argv elements], 'kind': ...}"""
-    kinds = ['word', 'word', 'soft', 'hard', 'symref', 'symref', 'softsym', 'mixed', 'empty', 'existing', 'optionlike',
-             'reserved']
+    kinds = ['word', 'word', 'soft', 'hard', 'symref', 'symref', 'softsym', 'softref', 'mixed', 'empty', 'existing',
+             'optionlike', 'reserved']
     if simple == 'actor':
-        kinds = ['word', 'word', 'soft', 'symref', 'softsym', 'mixed', 'empty', 'optionlike']
+        kinds = ['word', 'word', 'soft', 'symref', 'softsym', 'softref', 'mixed', 'empty', 'optionlike']
     elif simple:
         kinds = ['word', 'optionlike']
     k = g.choice(kinds)
@@ -85,6 +85,11 @@ def gen_arg(g, simple=False):
     if k == 'softsym':
         n = g.choice(sorted(SYMS))
         return {'syn': '"pre @[%s]@ post"' % n, 'val': ['pre %s post' % sym_str(n)], 'kind': k}
+    if k == 'softref':
+        # a soft-quoted token that is nothing but one reference is a string, whatever the type of the symbol: a list gives
+        # ONE argument (its elements separated by single spaces; the empty list gives one empty argument)
+        n = g.choice(sorted(SYMS))
+        return {'syn': '"@[%s]@"' % n, 'val': [sym_str(n)], 'kind': k}
     if k == 'mixed':
         n = g.choice(['STR1', 'STR2', 'PTH1'])
         return {'syn': 'x@[%s]@y' % n, 'val': ['x%sy' % sym_str(n)], 'kind': k}
